@@ -705,7 +705,7 @@ func (u *AsmUnit) BindDecls(p *Prog) error {
 		}
 		for i := 0; i < sig.Params().Len(); i++ {
 			v := sig.Params().At(i)
-			add(v.Name(), v.Type(), false)
+			add(asmCanonName(r.Name, i, v.Name()), v.Type(), false)
 		}
 		if sig.Results().Len() > 0 {
 			off = (off + 7) / 8 * 8
@@ -769,4 +769,37 @@ func (u *AsmUnit) PkgRel() string {
 		return u.Rel
 	}
 	return u.Pkg
+}
+
+// asmCanon: the parameter names of the assembler routines as the contract table (check_c11.go) spells them, by position.
+// A routine whose Go declaration (and FP names) were renamed keeps its contract.
+var asmCanon = map[string][]string{
+	"expandKeyAsm":              {"key", "enc", "dec"},
+	"cryptoBlockAsm":            {"rk", "dst", "src"},
+	"cryptoBlockAsmX2":          {"rk", "dst", "src"},
+	"cryptoBlockAsmX4":          {"rk", "dst", "src"},
+	"cryptoBlockAsmX8":          {"rk", "dst", "src"},
+	"cryptoBlockAsmX16":         {"rk", "dst", "src"},
+	"cryptoBlockAsmX16Internal": {"rk", "dst", "src", "tmp"},
+	"gHashBlocks":               {"H", "tag", "data", "count"},
+	"copyAsm":                   {"dst", "src", "len"},
+	"needExpand":                {"array", "asked"},
+	"transpose4x4":              {"dst", "src"},
+	"transpose1x4":              {"dst", "src"},
+	"concatenateY":              {"Y1", "Y2"},
+	"concatenateX":              {"X1", "X2", "X3", "X4"},
+	"sealAsm":                   {"roundKeys", "tagSize", "dst", "nonce", "plaintext", "additionalData", "temp"},
+	"openAsm":                   {"roundKeys", "tagSize", "dst", "nonce", "ciphertext", "additionalData", "temp"},
+	"xor256":                    {"dst", "src1", "src2"},
+	"xor128":                    {"dst", "src1", "src2"},
+	"xor64":                     {"dst", "src1", "src2"},
+	"xor32":                     {"dst", "src1", "src2"},
+	"xor16":                     {"dst", "src1", "src2"},
+}
+
+func asmCanonName(routine string, i int, declared string) string {
+	if c := asmCanon[routine]; i < len(c) {
+		return c[i]
+	}
+	return declared
 }
